@@ -567,6 +567,32 @@ pub fn forest_ops(forest: &[Node]) -> Vec<WOp> {
     ops
 }
 
+/// One more accepted presentation of a leaf: `write_raw(id, payload bytes)`, which takes any id and any bytes and validates
+/// neither path nor type. Leaves written with default options are replaced with probability num/den by a raw write of
+/// the reference payload encoding (`verbatim_only`: only strings, binary and raw-tag payloads, whose bytes the writer copies
+/// as they are). Returns the number of replaced ops.
+pub fn rawify_ops(t: &mut crate::tape::Tape, ops: &mut [WOp], num: u32, den: u32, verbatim_only: bool) -> usize {
+    let mut n = 0;
+    for op in ops.iter_mut() {
+        let repl = match op {
+            WOp::Write(Flat::Leaf(id, p), WOpt::Default) => {
+                let verbatim = matches!(p, Payload::S(_) | Payload::B(_) | Payload::Raw(_));
+                if (verbatim || !verbatim_only) && t.chance(num, den) {
+                    Some(WOp::Raw(*id, crate::refmodel::payload_bytes(p, &Enc::default())))
+                } else {
+                    None
+                }
+            }
+            _ => None,
+        };
+        if let Some(r) = repl {
+            *op = r;
+            n += 1;
+        }
+    }
+    n
+}
+
 /// Run ops through a fresh writer over a plain Vec; all must succeed.
 pub fn write_ops<T: Spec>(ops: &[WOp]) -> Result<Vec<u8>, (usize, WErr)> {
     let mut w = Wr::<T>::new(RecDest::new());
